@@ -43,14 +43,16 @@ Fixpoint scan_field (src : list N) : list N * option N * list N :=
       else let '(f, d, r) := scan_field t in (b :: f, d, r)
   end.
 
-(* read_field: (dst', bytes consumed, is_eol, src').  At LF one trailing CR of the WHOLE
-   buffer is popped (dst.ends_with(CR) -> dst.pop()), whichever field it belongs to. *)
+(* read_field: (dst', bytes consumed, is_eol, src').  At LF one trailing CR is popped, but only
+   when it was read as part of THIS field (`dst.len() > start && dst.ends_with(CR)`; repaired in
+   /repo 6993cf2 -- before, the CR of the previous field was popped when this field was empty,
+   leaving bounds beyond the buffer). *)
 Definition read_field (src dst : list N) : list N * nat * bool * list N :=
   let '(f, d, r) := scan_field src in
   match d with
   | Some c =>
       let eol := c =? 10 in
-      (if eol then strip_cr (dst ++ f) else dst ++ f, S (length f), eol, r)
+      (dst ++ (if eol then strip_cr f else f), S (length f), eol, r)
   | None => (dst ++ f, length f, false, r)
   end.
 
